@@ -2600,6 +2600,7 @@ class Engine(Interp, InterpOps, CallMixin, ZoneMixin):
         self.loop_info = {}
         self.unroll = 40
         self.layout_hook = None
+        self.bits_override = None   # (bit position, width) -> forced value of a primitive deku read, or None
         self.keep_rf = None         # predicate: refinements of these terms survive state GC
         self.const_checks = []
         self._last_closure_ret = BOT
